@@ -8,7 +8,7 @@ import z3
 from . import ops
 from .ops import concrete_bool, concrete_int, same_kind_eq, truth
 from .state import OutOfSubset, SymRaise
-from .values import (ClassVal, Cursor, DictObj, FrameObj, ListObj, Opt, RecObj, Ref, Rope, SetObj, StrSort, ValSort, fresh_name,
+from .values import (ClassVal, Cursor, DictObj, FrameObj, ListObj, MatrixObj, Opt, RecObj, Ref, RowView, Rope, SetObj, StrSort, ValSort, fresh_name,
                      is_strterm, lit, norm_str, to_z3)
 
 
@@ -49,8 +49,24 @@ def mk_symlist(st, length, get, elem=None, fresh=True):
     return st.alloc(ListObj(length=length, get=get, elem=elem, fresh=fresh))
 
 
-def as_symlist(st, o: ListObj):
+def seq_view(st, v):
+    """(length term, getter) of a list-like value (ListObj ref, MatrixObj ref, RowView), else None."""
+    if isinstance(v, RowView):
+        m = st.obj(v.matrix)
+        return m.cols, (lambda c, v=v: st.obj(v.matrix).cell(to_z3(v.r), to_z3(c)))
+    if isinstance(v, Ref):
+        o = st.obj(v)
+        if isinstance(o, ListObj):
+            return as_symlist(st, o)
+        if isinstance(o, MatrixObj):
+            return o.rows, (lambda r, v=v: RowView(v, to_z3(r)))
+    return None
+
+
+def as_symlist(st, o):
     """(length term, getter) view of any ListObj."""
+    if isinstance(o, MatrixObj):
+        raise OutOfSubset("as_symlist on a matrix object (use seq_view)")
     if not o.concrete:
         return o.length, o.get
     items = list(o.items)
@@ -154,6 +170,10 @@ def get_item(I, st, base, key, node):
         if not isinstance(k, str) or k not in fr.cols:
             raise OutOfSubset(f"row key {key!r}")
         return z3.Select(fr.cols[k], to_z3(base.idx))
+    if isinstance(base, RowView) or (isinstance(base, Ref) and isinstance(st.obj(base), MatrixObj)):
+        n, g = seq_view(st, base)
+        tmp = ListObj(length=n, get=g)
+        return list_get(I, st, tmp, key, site)
     if isinstance(base, Ref):
         o = st.obj(base)
         if isinstance(o, ListObj):
@@ -281,6 +301,34 @@ def set_item(I, st, base, key, v, node):
             raise OutOfSubset(f"new row key {k}")
         fr.cols[k] = z3.Store(fr.cols[k], to_z3(base.idx), to_z3(v))
         return
+    if isinstance(base, RowView):
+        m = st.obj(base.matrix)
+        I.ctx.frame_store(I, st, base.matrix, node)
+        ci = concrete_int(key)
+        idx = to_z3(key)
+        if ci is not None and ci < 0:
+            idx = m.cols + ci
+        I.check(st, z3.And(idx >= 0, idx < m.cols), "IndexError", "row.store", site)
+        old, r0, c0 = m.cell, z3.simplify(to_z3(base.r)), z3.simplify(idx)
+        m.cell = lambda r, c, old=old, r0=r0, c0=c0, v=v: ite(st, z3.And(to_z3(r) == r0, to_z3(c) == c0), v, old(r, c))
+        return
+    if isinstance(base, Ref) and isinstance(st.obj(base), MatrixObj):
+        m = st.obj(base)
+        I.ctx.frame_store(I, st, base, node)
+        ci = concrete_int(key)
+        idx = to_z3(key)
+        if ci is not None and ci < 0:
+            idx = m.rows + ci
+        I.check(st, z3.And(idx >= 0, idx < m.rows), "IndexError", "matrix.store", site)
+        sv = seq_view(st, v)
+        if sv is None:
+            raise OutOfSubset("matrix row assignment with a non-list value")
+        ln, lg = sv
+        I.oblige(st, f"matrix.row_store.rectangular@L{site}", ln == m.cols, "safety", site)
+        st.assume(ln == m.cols)
+        old, r0 = m.cell, z3.simplify(idx)
+        m.cell = lambda r, c, old=old, r0=r0, lg=lg: ite(st, to_z3(r) == r0, lg(c), old(r, c))
+        return
     if isinstance(base, Ref):
         o = st.obj(base)
         I.ctx.frame_store(I, st, base, node)
@@ -324,6 +372,10 @@ def contains(I, st, container, x, node):
         return x in container
     if isinstance(container, tuple):
         return _any_eq(st, x, list(container))
+    if isinstance(container, RowView):
+        n, g = seq_view(st, container)
+        j = z3.Int(fresh_name("j"))
+        return z3.Exists([j], z3.And(j >= 0, j < n, to_z3(same_kind_eq(st, x, g(j)))))
     if isinstance(container, Ref):
         o = st.obj(container)
         if isinstance(o, ListObj):
@@ -400,8 +452,12 @@ def iter_values(I, st, it, node):
         if it.strict and len({len(x) for x in inners}) > 1:
             raise SymRaise(ClassVal("ValueError", ValueError), st, "zip() strict length mismatch", getattr(node, "lineno", None))
         return [tuple(t) for t in zip(*inners)]
+    if isinstance(it, RowView):
+        return None
     if isinstance(it, Ref):
         o = st.obj(it)
+        if isinstance(o, MatrixObj):
+            return None
         if isinstance(o, ListObj):
             return list(o.items) if o.concrete else None
         if isinstance(o, DictObj):
@@ -442,10 +498,11 @@ def sym_iter_view(I, st, it):
             else:
                 n = z3.If(v[0] < n, v[0], n)
         return n, (lambda j: tuple(v[1](j) for v in views))
+    sv = seq_view(st, it)
+    if sv is not None:
+        return sv
     if isinstance(it, Ref):
         o = st.obj(it)
-        if isinstance(o, ListObj):
-            return as_symlist(st, o)
         if isinstance(o, FrameObj):
             return o.n, (lambda j, it=it: Cursor(it, j))
     hook = I.ctx.lib_sym_iter(I, st, it)
@@ -550,18 +607,27 @@ def comprehension(I, st, e, kind):
         v0 = I.eval(probe, e.elt)
         for ob in I.ctx.obligations[before:]:
             ob.meta["quantified_index"] = str(j0)
-        base_state = st
+        base_state = st.fork()
+        base_oids = set(base_state.heap)
+        elems_fresh = isinstance(v0, Ref) and v0.oid not in base_oids
 
         def get(j, g=g, e=e, getter=getter):
+            from .state import LAZY
             s2 = base_state.fork()
             s2.env = {"__parent__": s2.env, "__module__": s2.env.get("__module__")}
             I.assign(s2, g.target, getter(j))
             I.ctx.mute += 1
             try:
-                return I.eval(s2, e.elt)
+                r = I.eval(s2, e.elt)
             finally:
                 I.ctx.mute -= 1
-        return mk_symlist(st, n, get)
+            for oid, ob in s2.heap.items():
+                if oid not in base_oids and oid not in LAZY:
+                    LAZY[oid] = ob
+            return r
+        ref = mk_symlist(st, n, get)
+        st.obj(ref).elems_fresh = elems_fresh
+        return ref
     raise OutOfSubset(f"comprehension #{k} at line {e.lineno} over a symbolic sequence needs a loop specification")
 
 
@@ -592,24 +658,28 @@ def _dedupe(st, items):
 
 # ----------------------------------------------------------------------------------------------
 def list_concat(I, st, a, b, node):
-    oa, ob = st.obj(a), st.obj(b)
-    if not (isinstance(oa, ListObj) and isinstance(ob, ListObj)):
-        raise OutOfSubset("+ on non-lists")
-    if oa.concrete and ob.concrete:
+    oa = st.obj(a) if isinstance(a, Ref) else None
+    ob = st.obj(b) if isinstance(b, Ref) else None
+    if isinstance(oa, ListObj) and isinstance(ob, ListObj) and oa.concrete and ob.concrete:
         return mk_list(st, oa.items + ob.items)
-    la, ga = as_symlist(st, oa)
-    lb, gb = as_symlist(st, ob)
+    va, vb = seq_view(st, a), seq_view(st, b)
+    if va is None or vb is None:
+        raise OutOfSubset("+ on non-lists")
+    la, ga = va
+    lb, gb = vb
     return mk_symlist(st, z3.simplify(la + lb), lambda j: ite(st, to_z3(j) < la, ga(j), gb(to_z3(j) - la)))
 
 
 def list_repeat(I, st, lst, n, node):
-    o = st.obj(lst)
-    if not isinstance(o, ListObj):
-        raise OutOfSubset("* on non-list")
+    o = st.obj(lst) if isinstance(lst, Ref) else None
     cn = concrete_int(n)
-    if o.concrete and cn is not None:
+    if isinstance(o, ListObj) and o.concrete and cn is not None:
         return mk_list(st, o.items * cn)
-    length, get = as_symlist(st, o)
+    sv = seq_view(st, lst)
+    if sv is None:
+        raise OutOfSubset("* on non-list")
+    length, get = sv
+    o = o if isinstance(o, ListObj) else ListObj(length=length, get=get)
     nn = to_z3(n)
     nn = z3.If(nn < 0, 0, nn)
     cl = concrete_int(length)
